@@ -95,17 +95,12 @@ theorem lookup_none_setBody (G : Grammar) (i : Nat) (h : i < G.rules.length) (b'
   rcases lookup_setBody G i h b' name with ⟨h1, h2⟩ | ⟨r, h1, h2 | ⟨h2, h3⟩⟩ <;> simp_all
 
 theorem Inv_setBody {G : Grammar} (hinv : Inv F sg G) (i : Nat) (h : i < G.rules.length) (b' : Expr)
-    (hb : AllN (NodeOK ⟨sg, forced G.rules[i]⟩) b') (ht : totalBody G.rules[i].body = true → totalBody b' = true)
-    (hnp : F.skip = true → ∀ r ∈ (setBody G i h b').rules, AllN (NotPOK (setBody G i h b')) r.body) :
+    (hb : AllN (NodeOK sg) b') (ht : totalBody G.rules[i].body = true → totalBody b' = true) :
     Inv F sg (setBody G i h b') := by
-  refine ⟨fun n => by rw [sigOf_setBody, hinv.sig], fun r hr => ?_, fun r hr hn => ?_, fun hf => ?_,
-    fun r hr => ?_, hnp⟩
+  refine ⟨fun n => by rw [sigOf_setBody, hinv.sig], fun r hr => ?_, fun hf => ?_, fun r hr => ?_⟩
   · rcases List.mem_or_eq_of_mem_set hr with h1 | h1
     · exact hinv.nodes r h1
     · subst h1; exact Or.inl hb
-  · rcases List.mem_or_eq_of_mem_set hr with h1 | h1
-    · exact hinv.skipMod r h1 hn
-    · subst h1; exact hinv.skipMod G.rules[i] (List.getElem_mem h) hn
   · rw [lookup_none_setBody, lookup_none_setBody]
     apply hinv.fusedTrivia
     rcases fused_setBody G i h b' with ⟨h1, h2⟩ | ⟨r, h1, _⟩
@@ -119,7 +114,7 @@ theorem Inv_setBody {G : Grammar} (hinv : Inv F sg G) (i : Nat) (h : i < G.rules
       exact ht (hinv.total _ h1)
 
 /-- `_is_atomic`: the body of such a rule only ever runs with implicit trivia switched off -/
-theorem isAtomic_flag {G : Grammar} (hinv : Inv F sg G) (r : Rule) (hr : r ∈ G.rules)
+theorem isAtomic_flag {G : Grammar} (hinv : Inv F sg G) (r : Rule)
     (h : Opt.isAtomicRule G.rules r = true) :
     (∀ b, ruleAtomic r.name r.mod b = true) ∨ NoTrivia G := by
   unfold Opt.isAtomicRule at h
@@ -142,12 +137,11 @@ theorem isAtomic_flag {G : Grammar} (hinv : Inv F sg G) (r : Rule) (hr : r ∈ G
     simp only [h0, Bool.false_eq_true, ↓reduceIte, Bool.or_eq_true, beq_iff_eq] at h
     intro b
     unfold ruleAtomic
-    rcases h with (((h | h) | h) | h) | h
+    rcases h with ((h | h) | h) | h
     · simp [h]
     · simp [h]
     · simp [L1.isTriviaName, h]
     · simp [L1.isTriviaName, h]
-    · simp [hinv.skipMod r hr h]
 
 /-! ### one pass over one body -/
 
@@ -183,13 +177,12 @@ theorem runOnce_starLeaf {g : Grammar} {rules : List Rule} {p : Opt.Pass} (hp : 
 /-- one pass over one body gives a `TR`-related body.  The two matcher passes enter through
     their builder lemmas `hsqB`, `hskB` (OptSoundSquash / OptSoundSkip). -/
 theorem runOnce_TR {g G : Grammar} {p : Opt.Pass} (hp : Allowed F p) (hinv : Inv F sg G)
-    {fa : Bool}
-    (hsqB : F.squash = true → ∀ a e, AllN (NodeOK ⟨sg, fa⟩) e →
+    (hsqB : F.squash = true → ∀ a e, AllN (NodeOK sg) e →
       TR F G a e (Opt.mapBottomUp (Opt.squashChoice g) e))
-    (hskB : F.skip = true → ∀ a k e, (a = true ∨ NoTrivia G) → AllN (NodeOK ⟨sg, fa⟩) e → AllN (NotPOK G) e →
+    (hskB : F.skip = true → ∀ a k e, (a = true ∨ NoTrivia G) → AllN (NodeOK sg) e →
       TR F G a e (Opt.mapTopDown (Opt.skipPass G.rules 200) k e))
-    {a : Bool} (ha : p.atomicOnly = true → a = true ∨ NoTrivia G) (hfa : fa = true → a = true)
-    {e e' : Expr} (he : AllN (NodeOK ⟨sg, fa⟩) e) (hk : F.skip = true → AllN (NotPOK G) e)
+    {a : Bool} (ha : p.atomicOnly = true → a = true ∨ NoTrivia G)
+    {e e' : Expr} (he : AllN (NodeOK sg) e)
     (h : Opt.runOnce g G.rules p e = some e') : TR F G a e e' := by
   have := runOnce_out h
   subst this
@@ -197,10 +190,10 @@ theorem runOnce_TR {g G : Grammar} {p : Opt.Pass} (hp : Allowed F p) (hinv : Inv
   simp only [Opt.defaultPasses, List.mem_cons, List.not_mem_nil, or_false] at hmem
   rcases hmem with rfl | rfl | rfl | rfl | rfl
   · exact unroll_TR a e he
-  · exact hskB (hsk rfl) a _ e (ha rfl) he (hk (hsk rfl))
+  · exact hskB (hsk rfl) a _ e (ha rfl) he
   · exact inlineBuiltin_TR a _ e he
   · exact hsqB (hsq rfl) a e he
-  · exact inlineSilent_TR hinv.sig a hfa e he
+  · exact inlineSilent_TR hinv.sig a e he
 
 /-! ### `runStep` and the fold over the passes -/
 
@@ -208,36 +201,42 @@ theorem runOnce_TR {g G : Grammar} {p : Opt.Pass} (hp : Allowed F p) (hinv : Inv
 structure Builders (F : Feat) (sg : String → Option (String × Nat)) (g : Grammar) : Prop where
   sqSem : F.squash = true → SquashSem
   skSem : F.skip = true → ∀ G, SkipSem G
-  sqB : F.squash = true → ∀ G, G.usets = g.usets → Inv F sg G → ∀ fa a e, AllN (NodeOK ⟨sg, fa⟩) e →
+  sqB : F.squash = true → ∀ G, G.usets = g.usets → Inv F sg G → ∀ a e, AllN (NodeOK sg) e →
     TR F G a e (Opt.mapBottomUp (Opt.squashChoice g) e)
-  skB : F.skip = true → ∀ G, Inv F sg G → ∀ fa a k e, (a = true ∨ NoTrivia G) → AllN (NodeOK ⟨sg, fa⟩) e →
-    AllN (NotPOK G) e → TR F G a e (Opt.mapTopDown (Opt.skipPass G.rules 200) k e)
-  npB : F.skip = true → ∀ G (i : Nat) (h : i < G.rules.length) (b' : Expr), Inv F sg G →
-    (∀ b, TR F G (ruleAtomic G.rules[i].name G.rules[i].mod b) G.rules[i].body b') →
-    ∀ r ∈ (setBody G i h b').rules, AllN (NotPOK (setBody G i h b')) r.body
+  skB : F.skip = true → ∀ G, Inv F sg G → ∀ a k e, (a = true ∨ NoTrivia G) → AllN (NodeOK sg) e →
+    TR F G a e (Opt.mapTopDown (Opt.skipPass G.rules 200) k e)
 
-theorem runStep_sound {g : Grammar} {p : Opt.Pass} (hp : Allowed F p) (B : Builders F sg g) :
+/-- a property of rule bodies that every rewrite keeps, as long as every body of the table has it
+    (used for SOI-freeness; `fun _ => True` otherwise) -/
+def Kept (F : Feat) (P : Expr → Prop) : Prop :=
+  ∀ (G : Grammar) (a : Bool) (e e' : Expr), TR F G a e e' → (∀ n r, G.lookup n = some r → P r.body) →
+    P e → P e'
+
+theorem runStep_sound {g : Grammar} {p : Opt.Pass} (hp : Allowed F p) (B : Builders F sg g)
+    {P : Expr → Prop} (hP : Kept F P) :
     ∀ (d i : Nat) (rules rules' : List Rule), rules.length - i = d →
-      Inv F sg { g with rules := rules } → Opt.runStep g p i rules = some rules' →
-      EquivG { g with rules := rules } { g with rules := rules' } ∧ Inv F sg { g with rules := rules' } := by
+      Inv F sg { g with rules := rules } → (∀ r ∈ rules, P r.body) →
+      Opt.runStep g p i rules = some rules' →
+      EquivG { g with rules := rules } { g with rules := rules' } ∧ Inv F sg { g with rules := rules' } ∧
+        (∀ r ∈ rules', P r.body) := by
   intro d
   induction d with
   | zero =>
-    intro i rules rules' hd hinv h
+    intro i rules rules' hd hinv hpr h
     rw [Opt.runStep] at h
     have : ¬ i < rules.length := by omega
     simp only [this, ↓reduceDIte, Option.some.injEq] at h
     subst h
-    exact ⟨EquivG.refl _, hinv⟩
+    exact ⟨EquivG.refl _, hinv, hpr⟩
   | succ d ih =>
-    intro i rules rules' hd hinv h
+    intro i rules rules' hd hinv hpr h
     rw [Opt.runStep] at h
     have hi : i < rules.length := by omega
     simp only [hi, ↓reduceDIte] at h
     by_cases hskip : (rules[i].kind == RuleKind.builtin ||
         (p.atomicOnly && !Opt.isAtomicRule rules rules[i])) = true
     · rw [if_pos hskip] at h
-      exact ih (i + 1) rules rules' (by omega) hinv h
+      exact ih (i + 1) rules rules' (by omega) hinv hpr h
     · rw [if_neg hskip] at h
       cases hro : Opt.runOnce g rules p rules[i].body with
       | none => rw [hro] at h; exact absurd h (by simp)
@@ -256,19 +255,18 @@ theorem runStep_sound {g : Grammar} {p : Opt.Pass} (hp : Allowed F p) (B : Build
           have hset : rules.set i { rules[i] with body := b } = rules := by
             rw [hb]; exact List.set_getElem_self hi
           rw [hset] at h
-          exact ih (i + 1) rules rules' (by omega) hinv h
+          exact ih (i + 1) rules rules' (by omega) hinv hpr h
         have hflag : p.atomicOnly = true → (∀ b0, ruleAtomic rules[i].name rules[i].mod b0 = true) ∨ NoTrivia G := by
           intro hao
           have : Opt.isAtomicRule rules rules[i] = true := by
             simp only [Bool.or_eq_true, Bool.and_eq_true, Bool.not_eq_true', not_or, not_and,
               Bool.not_eq_false] at hskip
             exact hskip.2 hao
-          exact isAtomic_flag hinv _ hmem this
+          exact isAtomic_flag hinv _ this
         have htr : ∀ b0, TR F G (ruleAtomic rules[i].name rules[i].mod b0) rules[i].body b := by
           intro b0
-          refine runOnce_TR (g := g) (G := G) hp hinv (fun hF => B.sqB hF G rfl hinv _)
-            (fun hF => B.skB hF G hinv _) ?_ (fun hf => forced_all hf b0) hbody
-            (fun hF => hinv.notp hF _ hmem) hro
+          refine runOnce_TR (g := g) (G := G) hp hinv (fun hF => B.sqB hF G rfl hinv)
+            (fun hF => B.skB hF G hinv) ?_ hbody hro
           intro hao
           rcases hflag hao with h1 | h1
           · exact Or.inl (h1 b0)
@@ -277,26 +275,31 @@ theorem runStep_sound {g : Grammar} {p : Opt.Pass} (hp : Allowed F p) (B : Build
         have heq : EquivG G (setBody G i hiG b) :=
           equivG_of_GR hgr B.sqSem (fun hF => B.skSem hF G)
         have hinv' : Inv F sg (setBody G i hiG b) :=
-          Inv_setBody hinv i hiG b ((htr true).allN (sg := ⟨sg, forced rules[i]⟩) hinv.sig hinv.lookup_nodes hbody)
-            (htr true).totalBody
-            (fun hF => B.npB hF G i hiG b hinv htr)
-        have := ih (i + 1) (rules.set i { rules[i] with body := b }) rules' (by simp; omega) hinv' h
+          Inv_setBody hinv i hiG b ((htr true).allN hinv.sig hinv.lookup_nodes hbody) (htr true).totalBody
+        have hpb : P b := hP G _ _ _ (htr true) (fun n r hl => hpr r (lookup_mem hl)) (hpr _ hmem)
+        have hpr' : ∀ r ∈ rules.set i { rules[i] with body := b }, P r.body := by
+          intro r hr
+          rcases List.mem_or_eq_of_mem_set hr with h1 | h1
+          · exact hpr r h1
+          · subst h1; exact hpb
+        have := ih (i + 1) (rules.set i { rules[i] with body := b }) rules' (by simp; omega) hinv' hpr' h
         exact ⟨heq.trans this.1, this.2⟩
 
-theorem passes_sound {g : Grammar} (B : Builders F sg g) :
+theorem passes_sound {g : Grammar} (B : Builders F sg g) {P : Expr → Prop} (hP : Kept F P) :
     ∀ (passes : List Opt.Pass), (∀ p ∈ passes, Allowed F p) → ∀ (rules rules' : List Rule),
-      Inv F sg { g with rules := rules } →
+      Inv F sg { g with rules := rules } → (∀ r ∈ rules, P r.body) →
       passes.foldl (fun acc p => acc.bind fun rs => Opt.runStep g p 0 rs) (some rules) = some rules' →
-      EquivG { g with rules := rules } { g with rules := rules' } ∧ Inv F sg { g with rules := rules' } := by
+      EquivG { g with rules := rules } { g with rules := rules' } ∧ Inv F sg { g with rules := rules' } ∧
+        (∀ r ∈ rules', P r.body) := by
   intro passes
   induction passes with
   | nil =>
-    intro _ rules rules' hinv h
+    intro _ rules rules' hinv hpr h
     simp only [List.foldl_nil, Option.some.injEq] at h
     subst h
-    exact ⟨EquivG.refl _, hinv⟩
+    exact ⟨EquivG.refl _, hinv, hpr⟩
   | cons p rest ih =>
-    intro hp rules rules' hinv h
+    intro hp rules rules' hinv hpr h
     simp only [List.foldl_cons, Option.bind_some] at h
     cases h1 : Opt.runStep g p 0 rules with
     | none =>
@@ -310,8 +313,8 @@ theorem passes_sound {g : Grammar} (B : Builders F sg g) :
       exact absurd h (by simp)
     | some rules1 =>
       rw [h1] at h
-      have s1 := runStep_sound (hp p (by simp)) B _ 0 rules rules1 rfl hinv h1
-      have s2 := ih (fun q hq => hp q (by simp [hq])) rules1 rules' s1.2 h
+      have s1 := runStep_sound (hp p (by simp)) B hP _ 0 rules rules1 rfl hinv hpr h1
+      have s2 := ih (fun q hq => hp q (by simp [hq])) rules1 rules' s1.2.1 s1.2.2 h
       exact ⟨s1.1.trans s2.1, s2.2⟩
 
 end OptS
